@@ -398,6 +398,7 @@ func (fr *frame) visit(instr ssa.Instruction) cont {
 	case *ssa.MakeMap:
 		fr.set(in, newMap())
 	case *ssa.Range:
+		st.curSite = fr.fn.String() + "@" + posStr(st, in.Pos())
 		fr.set(in, st.rangeIter(fr.get(in.X), in.X.Type()))
 	case *ssa.Next:
 		fr.set(in, st.nextIter(fr.get(in.Iter), in))
@@ -860,6 +861,7 @@ func (st *State) mapDelete(m *Map, key Value) {
 }
 
 type mapIter struct {
+	free    int
 	m       *Map
 	pos     int
 	visited []bool
@@ -878,9 +880,18 @@ func (st *State) rangeIter(x Value, t types.Type) Value {
 	switch v := x.(type) {
 	case *Map:
 		it := &mapIter{m: v}
-		if st.mapOrder && v != nil && v.n > 1 {
-			it.sym = true
-			it.visited = make([]bool, len(v.keys))
+		if v != nil && v.n > 1 {
+			idx := st.rangeCount
+			st.rangeCount++
+			if st.mapOrder || idx == st.mapOrderInstance {
+				it.sym = true
+				it.visited = make([]bool, len(v.keys))
+				it.free = v.n
+				if v.n > 4 {
+					it.free = 2
+				}
+				st.mapSite = st.curSite
+			}
 		}
 		return it
 	case string, *SymStr:
@@ -907,7 +918,8 @@ func (st *State) nextIter(itv Value, in *ssa.Next) Value {
 				return Tuple{False, nil, nil}
 			}
 			pick := cand[0]
-			if len(cand) > 1 {
+			if len(cand) > 1 && it.free > 0 {
+				it.free--
 				c := st.fresh("maporder", 8)
 				st.assume(Cmp(OpULt, c, Const(8, uint64(len(cand)))))
 				pick = cand[int(st.Concretize(c))]
